@@ -6,7 +6,6 @@ import (
 	"fmt"
 	"math"
 	"sort"
-	"strings"
 	"sync"
 	"unsafe"
 
@@ -1014,7 +1013,7 @@ func (r *Runtime) typedArrayProto_set(call FunctionCall) Value {
 				copy(ta.viewedArrayBuf.data[(ta.offset+targetOffset)*ta.elemSize:],
 					src.viewedArrayBuf.data[src.offset*src.elemSize:(src.offset+srcLen)*src.elemSize])
 			} else {
-				checkTypedArrayMixBigInt(src.defaultCtor, ta.defaultCtor)
+				checkTypedArrayMixBigInt(src, ta)
 				if srcLen == 0 {
 					// nothing to copy; the source or the destination may start at the very end of its buffer
 					return _undefined
@@ -1480,12 +1479,20 @@ func (r *Runtime) _newTypedArrayFromArrayBuffer(ab *arrayBufferObject, args []Va
 	return ta.val
 }
 
-func checkTypedArrayMixBigInt(src, dst *Object) {
-	srcType := src.self.getStr("name", nil).String()
-	if strings.HasPrefix(srcType, "Big") {
-		if !strings.HasPrefix(dst.self.getStr("name", nil).String(), "Big") {
-			panic(errMixBigIntType)
-		}
+func isBigIntTypedArray(a *typedArrayObject) bool {
+	switch a.typedArray.(type) {
+	case *bigInt64Array, *bigUint64Array:
+		return true
+	}
+	return false
+}
+
+// checkTypedArrayMixBigInt compares the content types of the two arrays. It must not look at anything
+// script can redefine (such as the constructors' 'name'): it runs between the detached-buffer checks and
+// the element accesses of its callers.
+func checkTypedArrayMixBigInt(src, dst *typedArrayObject) {
+	if isBigIntTypedArray(src) && !isBigIntTypedArray(dst) {
+		panic(errMixBigIntType)
 	}
 }
 
@@ -1501,7 +1508,7 @@ func (r *Runtime) _newTypedArrayFromTypedArray(src *typedArrayObject, newTarget 
 		dst.length = src.length
 		return dst.val
 	} else {
-		checkTypedArrayMixBigInt(src.defaultCtor, newTarget)
+		checkTypedArrayMixBigInt(src, dst)
 	}
 	dst.length = l
 	for i := 0; i < l; i++ {
